@@ -52,6 +52,15 @@ fn main() {
     let code = rt.block_on(async {
         match cli.prop.as_str() {
             "C14" => c14::run_prop(&cli).await,
+            // C02 at the listener: the expiry and secret the operator configured reach the connection
+            // (passage::start) and the client address the cookie is compared with is the effective one
+            "C02" => {
+                let mut report = vp_common::Report::new(&cli, "exploration", "listener-level part of C02: cookies around the configured expiry and under other secrets against listeners started through passage::start (also after a stall), and the client address seen by services / bound into cookies behind PROXY protocol; distinct = case");
+                c14::run(&cli, &mut report).await;
+                c15::run(&cli, &mut report).await;
+                report.retain_violations(|sig| sig.contains("cookie") || sig.starts_with("service-saw-wrong-client-address"));
+                report.finish()
+            }
             "C15" => c15::run_prop(&cli).await,
             // C13 at the listener: which key a connection is charged to (admission clauses of C15)
             "C13" => c15::run_prop(&cli).await,
